@@ -442,7 +442,27 @@ fn gen_plan(rng: &mut Rng, claimed: &str) -> Plan {
     }
 }
 
+/// C11 mode (the hash as it is used towards the session service): only the serverId clause is
+/// judged, and server ids are long / non-ASCII far more often.
+static HASH_ONLY: std::sync::atomic::AtomicBool = std::sync::atomic::AtomicBool::new(false);
+
 fn gen_server_id(rng: &mut Rng) -> String {
+    if HASH_ONLY.load(std::sync::atomic::Ordering::Relaxed) {
+        return match rng.below(6) {
+            0 => String::new(),
+            1 => rng.ascii_name(1, 20),
+            2 => rng.ascii_name(21, 64),
+            3 => rng.ascii_name(100, 300),
+            4 => {
+                let len = rng.range(1, 40) as usize;
+                (0..len).map(|_| non_ascii_char(rng)).collect()
+            }
+            _ => {
+                let len = rng.range(1, 60) as usize;
+                rng.string_from(RICH, len)
+            }
+        };
+    }
     match rng.below(20) {
         0..=2 => String::new(),
         3..=4 => {
@@ -969,8 +989,10 @@ fn main() {
         "each case = (claimed name, server id, shared secret, encoded key, mock response) run through the real MojangAdapter::authenticate against a loopback mock; names: a fixed list of attack literals plus seeded draws (rich alphabet of & = # ? % + / \\ space ; : @ quotes, control characters, 2-4 byte UTF-8, %XX pre-encoded text, injected `&serverId=<other hash>`, up to 5000 chars); a case is distinct by (set of character classes in the name, position of the first special character, response kind, sign of the hash) and trivial when the name is [A-Za-z0-9_] only",
     );
     report.set_max_samples(8);
-    if cli.prop != "C12" {
-        report.inconclusive_fatal(&format!("vp-mojang decides C12 only, not {}", cli.prop));
+    let hash_only = cli.prop == "C11";
+    HASH_ONLY.store(hash_only, std::sync::atomic::Ordering::Relaxed);
+    if cli.prop != "C12" && !hash_only {
+        report.inconclusive_fatal(&format!("vp-mojang decides C12 (and the adapter clause of C11), not {}", cli.prop));
         std::process::exit(report.finish());
     }
     if let Err(e) = refcrypto::self_test() {
@@ -1165,6 +1187,10 @@ fn main() {
         report.inconclusive_fatal("no request reached the mock (is passage-adapters-http built with feature verif-hooks and PASSAGE_VERIF_SESSION_URL honoured?)");
     } else if cli.replay.is_none() && not_sent * 5 > report.evaluations() {
         report.inconclusive(&format!("{not_sent} of {} cases were refused before a request was sent; the verdict rests on the remaining ones", report.evaluations()));
+    }
+    if hash_only {
+        // C11: only "the hash placed in the request equals Minecraft's hash for this connection"
+        report.retain_violations(|sig| sig.starts_with("query/serverId"));
     }
     std::process::exit(report.finish());
 }
